@@ -7,6 +7,7 @@
      hlim/supportNodes/Node_MemPort.cpp     Node_MemPort::getOutputClockRelation
      hlim/coreNodes/Node_Signal2Clk.h, Node_Signal2Rst.h   checkValidInputClocks = true
      hlim/Clock.cpp                         inheritsClockPinSource / getClockPinSource
+     frontend/ExternalModule.cpp            Node_External_Exposed::getOutputClockRelation / checkValidInputClocks
 
    Node and output indices are [N] (they are map keys); input indices, output counts and
    fuel are [nat] (small structural numbers). *)
@@ -38,7 +39,8 @@ Definition oscd_eqb (a b : option scd) : bool :=
 
 (* Only the node classes that override one of the two virtual functions need a tag of their own;
    registers and pins use the base rule but are named because the property speaks about them. *)
-Inductive kind := KOther | KReg | KPin | KCdc | KMemPort | KSig2Clk | KSig2Rst.
+Inductive kind := KOther | KReg | KPin | KCdc | KMemPort | KSig2Clk | KSig2Rst
+                  | KExt.   (* frontend ExternalModule::Node_External_Exposed *)
 
 Record clock := mkClock {
   cparent : option clockid;   (* m_parentClock *)
@@ -55,7 +57,9 @@ Record node := mkNode {
   nid     : N;                        (* BaseNode::getId(), orders the retry set *)
   nins    : list (option port);       (* getDriver(i); None = unconnected *)
   nouts   : nat;                      (* getNumOutputPorts() *)
-  nclocks : list (option clockid)     (* m_clocks; None = nullptr *)
+  nclocks : list (option clockid);    (* m_clocks; None = nullptr *)
+  ninclk  : list (option clockid);    (* KExt only: m_inClock, the clock declared for every input port *)
+  noutclk : list (option clockid)     (* KExt only: the clock of m_outClockRelations[o] = {.dependentClocks = {clk}} *)
 }.
 
 Record netlist := mkNetlist { nodes : list node; clks : list clock }.
@@ -121,6 +125,7 @@ Definition base_relation (nd : node) : ocr :=
 Definition relation (nd : node) (o : N) : ocr :=
   match nkind nd with
   | KCdc => ([], [nth 1 (nclocks nd) None])                         (* Clocks::OUTPUT_CLOCK = 1 *)
+  | KExt => ([], [nth (N.to_nat o) (noutclk nd) None])              (* m_outClockRelations[output] *)
   | KMemPort =>
       if N.eqb o 2 then ([], [])                                      (* Outputs::memoryWriteDependency *)
       else (filter (fun i => negb (Nat.eqb i 6)) (seq 0 (length (nins nd))), [])   (* all but Inputs::memoryReadDependency *)
@@ -170,13 +175,34 @@ Definition cdc_check (ps : clockid -> clockid) (nd : node) (ins : list scd) : bo
   | [] => false
   end.
 
+(* ExternalModule::Node_External_Exposed::checkValidInputClocks: every port is compared with the
+   clock declared for it; the verdicts are accumulated (ret &= ...), UNKNOWN is refused *)
+Definition ext_port (ps : clockid -> clockid) (ret : bool) (x : scd) (c : option clockid) : bool :=
+  match x with
+  | SUnknown => false                                               (* ret = false *)
+  | SClock k => ret && match c with Some d => Nat.eqb (ps k) (ps d) | None => false end   (* ret &= ... *)
+  | SConst => ret                                                   (* default: break *)
+  end.
+
+Fixpoint ext_loop (ps : clockid -> clockid) (ins : list scd) (inclk : list (option clockid)) (ret : bool) : bool :=
+  match ins, inclk with
+  | x :: r, c :: rc => ext_loop ps r rc (ext_port ps ret x c)
+  | _, _ => ret
+  end.
+
+Definition ext_check (ps : clockid -> clockid) (nd : node) (ins : list scd) : bool :=
+  if Nat.eqb (length ins) (length (ninclk nd))                      (* HCL_ASSERT(inputClocks.size() == m_inClock.size()) *)
+  then ext_loop ps ins (ninclk nd) true
+  else false.
+
 Definition uses_base_check (k : kind) : bool :=
-  match k with KCdc | KSig2Clk | KSig2Rst => false | _ => true end.
+  match k with KCdc | KSig2Clk | KSig2Rst | KExt => false | _ => true end.
 
 Definition check_valid (ps : clockid -> clockid) (nd : node) (ins : list scd) : bool :=
   match nkind nd with
   | KCdc => cdc_check ps nd ins
   | KSig2Clk | KSig2Rst => true
+  | KExt => ext_check ps nd ins
   | _ => base_check ps nd ins
   end.
 
@@ -242,6 +268,7 @@ Definition wf_node (n : netlist) (nd : node) : bool :=
   match nkind nd with
   | KSig2Clk | KSig2Rst => match nclocks nd with [] => false | _ :: _ => true end
   | KCdc => match nins nd with [] => false | _ :: _ => true end      (* Node_CDC() : Node(1, 1) *)
+  | KExt => Nat.eqb (length (ninclk nd)) (length (nins nd))          (* in() pushes one clock per input port *)
   | _ => true
   end
   && forallb (fun d => match d with None => true | Some q => valid_port n q end) (nins nd).   (* no dangling drivers *)
@@ -445,6 +472,13 @@ Inductive crossing_at (n : netlist) (v : N) : Prop :=
     match s, nth_error (nclocks nd) 0 with
     | SrcClk d, Some (Some ic) => pin_source n d <> pin_source n ic
     | _, _ => True
+    end -> crossing_at n v
+| cr_ext : forall nd i s,              (* a signal reaches an external module's port declared for another clock *)
+    get_node n v = Some nd -> nkind nd = KExt ->
+    infl_in n nd i s ->
+    match s, nth_error (ninclk nd) i with
+    | SrcClk d, Some (Some ic) => pin_source n d <> pin_source n ic
+    | _, _ => True
     end -> crossing_at n v.
 
 Definition has_crossing (n : netlist) : Prop := exists v, crossing_at n v.
@@ -512,8 +546,16 @@ Definition site_cdc (n : netlist) (S : port -> list src) (nd : node) : bool :=
                     | _, _ => true
                     end) (in_srcs S nd 0).
 
+(* external modules: cr_ext *)
+Definition site_ext (n : netlist) (S : port -> list src) (nd : node) : bool :=
+  let ps := pin_source n in
+  existsb (fun i => existsb (fun s => match s, nth_error (ninclk nd) i with
+                                      | SrcClk d, Some (Some ic) => negb (Nat.eqb (ps d) (ps ic))
+                                      | _, _ => true
+                                      end) (in_srcs S nd i)) (seq 0 (length (nins nd))).
+
 Definition site_b (n : netlist) (S : port -> list src) (nd : node) : bool :=
   if uses_base_check (nkind nd) then site_base n S nd
-  else match nkind nd with KCdc => site_cdc n S nd | _ => false end.
+  else match nkind nd with KCdc => site_cdc n S nd | KExt => site_ext n S nd | _ => false end.
 
 Definition has_crossing_b (n : netlist) (S : port -> list src) : bool := existsb (site_b n S) (nodes n).
